@@ -33,6 +33,7 @@ class ESScript:
     def __init__(self, sa, pool, keyed):
         self.sa, self.pool, self.keyed = sa, pool, keyed
         self.round, self.k, self.calls = -1, 0, 0
+        self.decided = {}  # keyed mode: the error flag of an area is decided once (at its first evaluation) and is a function of the area
 
     def calc_error(self, objectID):
         sa = self.sa
@@ -41,10 +42,20 @@ class ESScript:
         if r != self.round:
             self.round = r
             self.k = 0
+        if self.keyed:
+            # keyed: the flag is a function of the area (two runs that create the same area decide alike, and evaluating an area again -
+            # after a continuation - reports the same flag); only the first `pool` newly decided areas of a round get a solver choice
+            ak = _area_key(sa.refinement.get_object(objectID))
+            if ak in self.decided:
+                v = self.decided[ak]
+            else:
+                v = float(S.choice('err_%s' % ak, 2)) if self.k < self.pool else 0.0
+                self.k += 1
+                self.decided[ak] = v
+            sa.refinement.get_object(objectID).set_error(v)
+            return
         if self.k < self.pool:
-            # keyed: the decision is a function of the refinement state and the area (two runs that reach the same state decide alike)
-            name = ('err_%s_%s' % (_leaf_key(sa), _area_key(sa.refinement.get_object(objectID)))) if self.keyed else 'err%d_%d' % (r, self.k)
-            v = float(S.choice(name, 2))
+            v = float(S.choice('err%d_%d' % (r, self.k), 2))
         else:
             v = 0.0
         self.k += 1
